@@ -65,7 +65,13 @@ _EXPRS = {
     "v_multi": ("and_v(v:multi(1,A,B),pk(C))", lambda a: (a["A"] or a["B"]) and a["C"]),
     "andor_multi": ("andor(multi(2,A,B),older(3),pk(C))", lambda a: (a["A"] and a["B"] and a["older"](3)) or a["C"]),
     "thresh_multi": ("thresh(2,multi(1,A,B),a:pk(C),sln:after(5))", lambda a: ((a["A"] or a["B"]) + a["C"] + a["after"](5)) >= 2),
+    "and_b_pkh_in_or_d": ("or_d(and_b(pk(A),a:pkh(B)),pk(C))", lambda a: (a["A"] and a["B"]) or a["C"]),
+    "and_b_multi_pkh_in_andor": ("andor(and_b(multi(1,A),a:pkh(B)),pk(C),pk(C))", None),
+    "and_b_in_or_b": ("or_b(and_b(pk(A),a:pkh(B)),a:pk(C))", lambda a: (a["A"] and a["B"]) or a["C"]),
+    "and_b_in_thresh": ("thresh(1,and_b(pk(A),a:pkh(B)),a:pk(C))", lambda a: ((a["A"] and a["B"]) + a["C"]) >= 1),
+    "multi_2_of_3_in_and": ("and_v(v:pk(C),multi(1,A,B))", lambda a: a["C"] and (a["A"] or a["B"])),
 }
+_EXPRS.pop("and_b_multi_pkh_in_andor")
 
 
 def _text(name):
@@ -122,7 +128,7 @@ def _flags():
 
 @ob("C15", "satisfaction_exists_only_when_the_condition_holds_and_the_engine_accepts_it", quick=[dict(expr=e) for e in _EXPRS],
     bound="each of the 42 expressions, with the availability of every key's signature and of the preimage symbolic booleans and the spending transaction's lock time (either side of the 500000000 "
-          "threshold) and sequence symbolic: when satisfy() answers, the expression's spending condition holds for what was available, the witness is within the predicted size and element bounds, "
+          "threshold) and sequence symbolic: when satisfy() answers, the expression's spending condition holds for what was available, the witness is within the predicted size and element bounds, the op count the engine reaches is within max_ops, "
           "and verify_input accepts the P2WSH spend under the standard flags; satisfy() refuses exactly when the condition does not hold (every expression here is sane, so a "
           "non-malleable satisfaction exists whenever any does)",
     stubs=["script.dsa_verify answers True exactly for the (signature, key) pairs that were made available", "the spending condition is evaluated by a table of lambdas written from BIP379's semantics"],
@@ -160,6 +166,14 @@ def satisfaction(ex, expr):
         claims["within_predicted_stack_items"] = len(witness) <= node.max_stack_items
     ok_pairs = {(_sig_for(k)[:-1], _KEY[k]) for k in "ABC" if have[k]}
     ex.stub(_escript.dsa_verify, lambda m, pk, s: (bytes(s), bytes(pk)) in ok_pairs)
+    counted = [0]
+    real_count = _escript.script_op_count
+
+    def counting(count, increment):
+        r = ex.unstubbed(real_count, count, increment)
+        counted[0] = max(counted[0], r)
+        return r
+    ex.stub(_escript.script_op_count, counting)
     spk = b"\x00\x20" + _hashes.sha256(script)
     tx = Tx(2, locktime, [TxIn(OutPoint(b"\x01" * 32, 0, check_validity=False), b"", sequence, Witness(list(witness) + [script], check_validity=False), check_validity=False)],
             [TxOut(1000, b"\x51", check_validity=False)], check_validity=False)
@@ -168,6 +182,8 @@ def satisfaction(ex, expr):
         claims["engine_accepts_the_satisfaction"] = True
     except (ScriptError, BTClibValueError):
         claims["engine_accepts_the_satisfaction"] = False
+    if node.max_ops is not None:
+        claims["ops_counted_by_the_engine_within_max_ops"] = counted[0] <= node.max_ops
     return claims
 
 
@@ -238,3 +254,17 @@ def tap_satisfaction(ex, expr):
     except (ScriptError, BTClibValueError):
         claims["engine_runs_the_leaf_to_success"] = False
     return claims
+
+
+
+_KEYS20 = ['0279be667ef9dcbbac55a06295ce870b07029bfcdb2dce28d959f2815b16f81798', '02c6047f9441ed7d6d3045406e95c07cd85c778e4b8cef3ca7abac09b95c709ee5', '02f9308a019258c31049344f85f89d5229b531c845836f99b08601f113bce036f9', '02e493dbf1c10d80f3581e4904930b1404cc6c13900ee0758474fa94abe8c4cd13', '022f8bde4d1a07209355b4a7250a5c5128e88b84bddc619ab7cba8d569b240efe4', '03fff97bd5755eeea420453a14355235d382f6472f8568a18b2f057a1460297556', '025cbdf0646e5db4eaa398f365f2ea7a0e3d419b7e0330e39ce92bddedcac4f9bc', '022f01e5e15cca351daff3843fb70f3c2f0a1bdd05e5af888a67784ef3e10a2a01', '03acd484e2f0c7f65309ad178a9f559abde09796974c57e714c35f110dfc27ccbe', '03a0434d9e47f3c86235477c7b1ae6ae5d3442d49b1943c2b752a68e2a47e247c7', '03774ae7f858a9411e5ef4246b70c65aac5649980be5c17891bbec17895da008cb', '03d01115d548e7561b15c38f004d734633687cf4419620095bc5b0f47070afe85a', '03f28773c2d975288bc7d1d205c3748651b075fbc6610e58cddeeddf8f19405aa8', '03499fdf9e895e719cfd64e67f07d38e3226aa7b63678949e6e49b241a60e823e4', '02d7924d4f7d43ea965a465ae3095ff41131e5946f3c85f79e44adbcf8e27e080e', '03e60fce93b59e9ec53011aabc21c23e97b2a31369b87a5ae9c44ee89e2a6dec0a', '03defdea4cdb677750a420fee807eacf21eb9898ae79b9768766e4faa04a2d4a34', '025601570cb47f238d2b0286db4a990fa0f3ba28d1a319f5e7cf55c2a2444da7cc', '022b4ea0a797a443d293ef5cff444f4979f06acfebd7e86d277475656138385b6c', '024ce119c96e2fa357200b559b2f7dd5a5f02d5290aff74b03f3e471b273211c97']
+
+
+@ob("C15", "multi_of_many_keys_size_and_readback", quick=[dict(n=n, k=k) for n, k in ((15, 1), (16, 16), (17, 1), (17, 17), (20, 2), (20, 20))],
+    bound="multi(k, n keys) for key counts on both sides of 16 (OP_16 is the last one-byte number push; 17..20 are two-byte pushes): predicted script size, read-back, text re-parse",
+    functions=["btclib.descriptors.miniscript._leaf_script_size", "btclib.descriptors.miniscript._multi_fragment_script"], min_ok=1, timeout=300)
+def big_multi(ex, n, k):
+    node = ms.parse("multi(%d,%s)" % (k, ",".join(_KEYS20[:n])))
+    script = node.script()
+    back = ms.from_script(script)
+    return {"size_is_predicted": len(script) == node.script_size, "reads_back": back == node, "read_back_compiles_to_the_same_bytes": back.script() == script, "text_reparses": ms.parse(str(node)) == node}
